@@ -1,4 +1,49 @@
-import Spok.Judge.Syntax
-/-! # Property C07 — theorems (under construction) -/
+import Spok.Props.C06
+import Spok.Lemmas.RT.Corollaries
+/-! # Property C07 — formatting never changes what a spokfile does, and its output always parses
+
+For every tree `t` satisfying `wfTree` (`Syntax/WF.lean`: the executable description of the trees the
+parser can return) the formatter's text parses without error to the normalised tree `norm t`, which
+differs from `t` only in the spelling of comments and docstrings; in particular it defines the same
+variables with the same values and the same tasks with the same dependencies, outputs and commands,
+in the same order (`sem`).
+
+What is still OPEN is `parse_wf`: *every tree the parser returns satisfies `wfTree`*.  Until it is
+proved the theorems below carry `wfTree t = true` as a hypothesis (hence `…_partial`), and the oracle
+evaluates `wfTree` — and re-checks `parse (format t) = norm t` — on every tree the implementation
+produces in every run (verdicts `WF`, `NORM`). -/
 namespace Spok.Props.C07
+open Spok
+
+/-- print, then parse: no error, the normalised tree — for every well-formed tree -/
+theorem print_parse (t : Tree) (h : wfTree t = true) : parseRunes (format t) = ⟨norm t, none⟩ :=
+  Spok.print_parse C06.C06 h
+
+/-- normalisation only re-spells comments: variables, values, tasks, dependencies, outputs and
+    command lines are untouched, for every tree -/
+theorem sem_preserved (t : Tree) : sem (norm t) = sem t := sem_norm t
+
+/-- **C07** for every well-formed tree: the formatted text parses, and means the same.
+    Missing for the full property: `parse_wf` (see the header). -/
+theorem C07_partial (t : Tree) (h : wfTree t = true) :
+    (parseRunes (format t)).fail = none ∧ sem (parseRunes (format t)).tree = sem t := by
+  rw [print_parse t h]; exact ⟨rfl, sem_norm t⟩
+
+/-- the same starting from an input: if it parses to a well-formed tree, the formatted text parses to a
+    tree with the same meaning -/
+theorem C07_from_input_partial (rs : List Rune) (hp : (parseRunes rs).fail = none)
+    (hw : wfTree (parseRunes rs).tree = true) :
+    (parseRunes (format (parseRunes rs).tree)).fail = none ∧
+    sem (parseRunes (format (parseRunes rs).tree)).tree = sem (parseRunes rs).tree :=
+  C07_partial _ hw
+
+/-- the judge accepts the model on well-formed trees -/
+theorem judge_accepts_model_partial (t : Tree) (h : wfTree t = true) :
+    Judge.c07 t (.ok (parseRunes (format t)).tree) = true := by
+  rw [print_parse t h]; simp [Judge.c07, sem_norm]
+
+/-! non-vacuity -/
+example : wfTree Fmt.exTree = true := Fmt.exTree_wf
+example : sem (parseRunes (format Fmt.exTree)).tree = sem Fmt.exTree := (C07_partial _ Fmt.exTree_wf).2
+
 end Spok.Props.C07
